@@ -63,6 +63,17 @@ def parse_interventions(interventions_dict: DictIv) -> Arr2:
     fresh(result)
 
 
+@invariant("sempler.lganm._parse_interventions", loop=1)
+def _parse_inv(interventions, interventions_dict):
+    declare(interventions=ListOf(ListOf(Real)))
+    # one row per key already visited, in iteration order; no malformed value among them
+    holds(len(interventions) == _k1,
+          all(len(interventions[k]) == 3 for k in range(_k1)),
+          all(iv_ok(_iter1[k][1]) for k in range(_k1)),
+          all(interventions[k][0] == _iter1[k][0] and interventions[k][1] == iv_mean(_iter1[k][1]) and interventions[k][2] == iv_var(_iter1[k][1])
+              for k in range(_k1)))
+
+
 LG = "Obj('sempler.lganm.LGANM', p=Int, W=Arr2, means=Arr1, variances=Arr1)"
 
 
